@@ -167,6 +167,39 @@ theorem processMatrix_row_length_counterexample :
     | rowNext _ _ _ _ _ h6 => rw [hl] at h6; cases h6
     | matrix h1 => rw [hc] at h1; cases h1
 
+/-- **Rejection, contrapositive form**: a text whose line list is not a well-formed file is rejected with an exception -/
+theorem parser_rejects {fl : Flags} (hfl : fl.rowLenThrows = true) (k : Kind) (text : Str)
+    (hbad : ∀ p lines sT sR sW, parseModelInfo (splitLines text) {} [] = .ok (p, lines) → ¬ FileDenotes k p lines 0 sT sR sW) :
+    ∃ e, parse fl k text = .error e := by
+  cases h : parse fl k text with
+  | error e => exact ⟨e, rfl⟩
+  | ok r =>
+    obtain ⟨lines, sT, sR, sW, hpre, _, _, _, hfile, _⟩ := parser_accepts_only_wellformed hfl h
+    exact absurd hfile (hbad r.pre lines sT sR sW hpre)
+
+/-- a line list whose first line starts with `T` but is no T statement of the grammar is not a well-formed file -/
+theorem not_FileDenotes_of_bad_T_line (k : Kind) (p : Pre) (l : Str) (rest : List Str) (sT sR sW : List Stmt)
+    (hT : startsWith l ['T'] = true)
+    (hbad : ∀ s n, ¬ MatrixLine p.S p.A p.S p.amap p.smap p.smap l rest s n) :
+    ¬ FileDenotes k p (l :: rest) 0 sT sR sW := by
+  intro h
+  cases h with
+  | tline _ hm _ => exact hbad _ _ hm
+  | oline h1 _ _ _ _ => rw [hT] at h1; cases h1
+  | rline h1 _ _ _ _ => rw [hT] at h1; cases h1
+  | other h1 _ _ _ => rw [hT] at h1; cases h1
+
+/-- e.g. a wrong number of ':' : no statement is denoted -/
+theorem not_MatrixLine_of_bad_colon_count {D1 D2 D3 : Nat} {amap d1map d3map : IDMap} {l : Str} {rest : List Str}
+    (h1 : countColon l ≠ 1) (h2 : countColon l ≠ 2) (h3 : countColon l ≠ 3) (s : Stmt) (n : Nat) :
+    ¬ MatrixLine D1 D2 D3 amap d1map d3map l rest s n := by
+  intro hm
+  cases hm with
+  | entry hc => exact h3 hc
+  | rowInline hc => exact h2 hc
+  | rowNext hc => exact h2 hc
+  | matrix hc => exact h1 hc
+
 /-- what the source as extracted guarantees: acceptance implies well-formedness, or the flag is off -/
 theorem parser_rejects_as_extracted {k : Kind} {text : Str} {r : Parsed}
     (h : parse Gen.Dispatch.flags k text = .ok r) :
